@@ -648,6 +648,13 @@ def sched_group(g, shape, scale):
         e = g.fresh(tag)
         g.emit("new %s" % e)
         names.insert(1, e)
+    elif shape == "widetop":
+        # a few keys spread over the whole key space up to 65535 (or from 65000 up): the chunk grid of ParOr overshoots the top
+        lo = r.choice([0, 1, 65000])
+        pool_ = sorted(set([lo, 65535, 65534, 65120, 62272, 60096, 49153] + r.sample(range(lo, 65536), 12)))
+        pool_ = [k for k in pool_ if k >= lo]
+        for i in range(r.randint(2, 4)):
+            mk(sorted(set(r.sample(pool_, r.randint(3, len(pool_))) + [65535])), cow=r.randrange(2))
     else:  # mixed
         nb = r.randint(2, 6)
         sp = r.choice([2, 9, 70, 300])
@@ -657,6 +664,8 @@ def sched_group(g, shape, scale):
     g.count("sched:" + shape)
     L = " ".join(names)
     combos = [(p, w) for p in (1, 2, 4, 16) for w in (0, 1, 2, 3, 8, 64)]
+    if shape == "widetop":
+        combos = [(p, w) for p in (1, 4) for w in (1, 2, 3, 4, 5, 6, 7, 8, 12, 16, 33)]
     for fn in PAR:
         # half of the GOMAXPROCS x workers grid per (group, function) at scale 1, the full grid from scale 2
         sel = combos if scale >= 2 else r.sample(combos, max(4, int(len(combos) * scale / 2)))
@@ -695,7 +704,7 @@ def sched_group(g, shape, scale):
 
 @suite("sched")
 def _sched(g, scale):
-    shapes = ["emptylist", "allempty", "single", "disjoint", "common", "common", "dups", "mixed", "commonwide"]
+    shapes = ["emptylist", "allempty", "single", "disjoint", "common", "common", "dups", "mixed", "commonwide", "widetop"]
     for sh in shapes:
         sched_group(g, sh, scale)
     for _ in range(int(2 * scale)):
